@@ -176,6 +176,12 @@ def fmt_families(fmt, ops, attr_vals=None, star=False, abstract=True, extra=None
                              invariants=tlc.GEN_INVARIANTS, simulate=dict(num=4000, depth=4)),
         },
     }
+    fams[fmt + '-Deep'] = {   # walks: constraints grown to depth 3
+        'quick':    dict(consts=dict(N=4, MaxKids=2, MinHi=1, Axes={'ctc'}, MaxCtc=2, CtcDepth=1, CtcBinOps=ops, CtcMinFeatures=3, CtcGrow=2,
+                                     Fmt=fmt), invariants=tlc.GEN_INVARIANTS, simulate=dict(num=400, depth=9)),
+        'thorough': dict(consts=dict(N=4, MaxKids=2, MinHi=1, Axes={'ctc'}, MaxCtc=2, CtcDepth=1, CtcBinOps=ops, CtcMinFeatures=3, CtcGrow=2,
+                                     Fmt=fmt), invariants=tlc.GEN_INVARIANTS, simulate=dict(num=4000, depth=9)),
+    }
     if star:
         fams[fmt + '-Star'] = {
             'quick':    dict(consts=dict(N=4, MaxKids=3, MinHi=1, AllowStar=True, Fmt=fmt), invariants=tlc.GEN_INVARIANTS),
@@ -211,7 +217,8 @@ ATTR_VALS_AFM = [{'val': 's:3', 'dom': 'R:i:1..i:5|E:', 'nul': 's:0'},
                  {'val': 's:1', 'dom': 'R:|E:s:1,s:2', 'nul': 's:2'}]
 FAMILIES.update(fmt_families('afm', ALL_OPS_NOT_XOR, ATTR_VALS_AFM, abstract=False))
 ATTR_VALS_UVL = [{'val': v, 'dom': '', 'nul': 'n'} for v in
-                 ['n', 'b:true', 'b:false', 'i:5', 'i:0', 'i:-5', 'd:1.5', 'd:0.1234567', 'd:-2.25', 's:txt', 's:two words', 's:true',
+                 ['n', 'b:true', 'b:false', 'i:5', 'i:0', 'i:-5', 'd:1.5', 'd:0.1234567', 'd:-2.25', 's:txt', 's:two words', 's:true', 's:static//img',
+                  's:word word word word word word word word word word word word word word word word word word word word word word word word word word end',
                   'l:[i:1,i:2]', 'l:[i:5]', 'l:[s:x,d:2.5,i:-3]', 'm:{s:k=i:1}', 'm:{s:k=m:{s:j=s:v}}']]
 FAMILIES.update(fmt_families('uvl', ALL_OPS_NOT_XOR, ATTR_VALS_UVL, star=True, extra={
     'uvl-Type': {
@@ -334,6 +341,7 @@ FAMILIES.update({
     'Ref-xml': {t: dict(consts=dict(N=5, MaxKids=3, MinHi=0, Axes={'ctc'}, MaxCtc=2, CtcDepth=1, CtcBinOps={'REQUIRES', 'EXCLUDES'},
                                     CtcMinFeatures=4, MaxLevel=7),
                         invariants=tlc.GEN_INVARIANTS, simulate=dict(num=300, depth=8)) for t in ('quick', 'thorough')},
+    'Ref-xml-Wide': {t: dict(consts=dict(N=13, MaxKids=12, MinHi=1, MaxLevel=2), invariants=tlc.GEN_INVARIANTS) for t in ('quick', 'thorough')},
     'Ref-fide-Ctc3': {t: dict(consts=dict(N=2, MaxKids=1, MinHi=1, Axes={'ctc', 'abs'}, MaxCtc=1, CtcDepth=2, CtcBinOps={'AND', 'OR', 'IMPLIES'},
                                           CtcMinFeatures=2, Fmt='fide'),
                               invariants=tlc.GEN_INVARIANTS) for t in ('quick', 'thorough')},
